@@ -95,7 +95,7 @@ def leap_table_years():
     return ys
 
 
-S_CORE = [1, 2, 8, 9, 15, 18, 23, 24, 236, 237, 239, 240, 241, 1574, 1582, 1583, 1600, 1644, 1645, 1899, 1900,
+S_CORE = [1, 2, 8, 9, 15, 16, 18, 19, 23, 24, 236, 237, 239, 240, 241, 1574, 1575, 3359, 1582, 1583, 1600, 1644, 1645, 1899, 1900,
           1928, 1929, 1959, 1960, 1990, 2000, 2019, 2020, 2022, 2024, 2033, 2034, 3358, 9997, 9998]
 
 
@@ -167,3 +167,37 @@ def c13_units(tier, seed):
 PROPS["C05"] = dict(units=c05_units, bounds_text="day/hour pillars: all date-times of years 1..9998 (year symbolic); year/month pillars: every second of each listed year",
                     outside="year/month pillars in years not listed")
 PROPS["C13"] = dict(units=c13_units, bounds_text="every day (and time of day) of each listed civil year", outside="years not listed")
+
+
+def c01_units(tier, seed):
+    ys = year_set(tier, seed)
+    us = per_year("calendar.VH_C01_RoundTrip", "C01a", ys)
+    us += per_year("calendar.VH_C01_Position", "C01b", ys)
+    ys2 = year_set(tier, seed, budget_quick=12) if tier == "quick" else ys[::4]
+    us += per_year("calendar.VH_C01_Step", "C01c", ys2, {"N": 45 if tier == "quick" else 400})
+    return us
+
+
+def c06_units(tier, seed):
+    ys = year_set(tier, seed)
+    if tier != "quick":
+        ys = sorted(set(ys) | set(range(1, 9999, 7)))
+    us = [dict(id=f"C06a[Y={Y}]", harness="calendar.VH_C06_Structure", params={"Y": Y}) for Y in ys]
+    us += [dict(id=f"C06b[Y={Y}]", harness="calendar.VH_C06_Navigate", params={"Y": Y, "N": 30 if tier == "quick" else 150}) for Y in ys if 14 <= Y <= 9980]
+    return us
+
+
+def c07_units(tier, seed):
+    us = [dict(id="C07a", harness="calendar.VH_C07_NewSolar", params={"B": 1 << 31})]
+    us += [dict(id=f"C07b[Y={Y}]", harness="calendar.VH_C07_NewLunar", params={"Y": Y}) for Y in year_set(tier, seed)]
+    return us
+
+
+def c17_units(tier, seed):
+    return per_year("calendar.VH_C17_TaoFoto", "C17a", year_set(tier, seed))
+
+
+PROPS["C01"] = dict(units=c01_units, bounds_text="every second of each listed civil year; steps |n|<=45 (quick) / 400 (thorough)", outside="years not listed; larger steps")
+PROPS["C06"] = dict(units=c06_units, bounds_text="month tables of the listed lunar years (structure: concrete evaluation); navigation |n|<=30 (quick) / 150 (thorough) from every month of each listed year", outside="years not listed")
+PROPS["C07"] = dict(units=c07_units, bounds_text="NewSolar: y in 1..9998, other args in [-2^31,2^31]; NewLunar/NewTao/NewFoto: month -14..14, day -2..33, time box, each listed year", outside="lunar years not listed")
+PROPS["C17"] = dict(units=c17_units, bounds_text="every second of each listed civil year", outside="years not listed")
